@@ -279,9 +279,34 @@ Arguments enew {A}.
 
 (** * Layer 2: Starlark values *)
 
+(** Floats.  The model holds the special values and the finite floats that are a multiple of one half
+    ([FHalf z] = z/2, [FHalf 0] = +0.0; exact in a float64 for |z| < 2^53, which is all the harness renders):
+    enough to have, as in Starlark, numbers of different types that are equal (1 == 1.0, 0 == -0.0 == 0.0),
+    floats that equal no int (0.5, the infinities, NaN) and NaN == NaN (floatCmp). *)
+Inductive flt := FNaN | FPosInf | FNegInf | FNegZero | FHalf (z : Z).
+
+(** floatCmp(x, y) == 0 *)
+Definition flt_eqb (x y : flt) : bool :=
+  match x, y with
+  | FNaN, FNaN | FPosInf, FPosInf | FNegInf, FNegInf | FNegZero, FNegZero => true
+  | FNegZero, FHalf z | FHalf z, FNegZero => z =? 0
+  | FHalf a, FHalf b => a =? b
+  | _, _ => false
+  end.
+
+(** CompareDepth's "int/float" case: the float is finite and x.rational().Cmp(y.rational()) == 0 *)
+Definition int_flt_eqb (n : Z) (f : flt) : bool :=
+  match f with
+  | FHalf z => z =? 2 * n
+  | FNegZero => n =? 0
+  | _ => false
+  end.
+
 Inductive value :=
 | VNone
+| VBool (b : bool)
 | VInt (z : Z)
+| VFloat (f : flt)
 | VStr (s : str)
 | VBytes (s : str)
 | VTuple (l : list value)
@@ -337,7 +362,12 @@ Fixpoint veq_gen (keq : value -> value -> bool) (depth : nat) (x y : value) : op
   | S d =>
       match x, y with
       | VNone, VNone => Some true
+      | VBool a, VBool b => Some (Bool.eqb a b)
       | VInt a, VInt b => Some (a =? b)
+      | VFloat a, VFloat b => Some (flt_eqb a b)
+      (* values of different types are unequal, except an int and a float of the same value *)
+      | VInt a, VFloat b => Some (int_flt_eqb a b)
+      | VFloat a, VInt b => Some (int_flt_eqb b a)
       | VStr a, VStr b => Some (str_eqb a b)
       | VBytes a, VBytes b => Some (str_eqb a b)
       | VTuple a, VTuple b =>
